@@ -106,7 +106,7 @@ package absnfs
 //@ func Server.handleConnection
 //@ prop C28 C17
 //@ requires s != nil
-//@ modifies everything
+//@ modifies everything, allghosts, locks, once
 // raw mode: the loop reads and writes this connection unframed
 //@ callassert Server.handleConnectionLoop : [raw-io] typeof(arg3) == typeid(*rawConnIO) && valof(arg3) == cio && cio != nil && cio.conn == conn && cio.server == s
 //@ ensures [inv] connInv(s) && (s.handler != nil ==> curTuning(s.handler) != nil)
@@ -114,7 +114,7 @@ package absnfs
 //@ func Server.handleConnectionWithRecordMarking
 //@ prop C28 C17
 //@ requires s != nil
-//@ modifies everything
+//@ modifies everything, allghosts, locks, once
 // record-marking mode: the loop's I/O is a record-marking codec whose reader and writer are this connection
 //@ callassert Server.handleConnectionLoop : [framed-io] typeof(arg3) == typeid(*recordMarkingConnIO) && valof(arg3) == cio && cio != nil && cio.server == s && cio.rmConn != nil && cio.rmConn.reader != nil && cio.rmConn.reader.r == conn && cio.rmConn.reader.fragmentBuf != nil && cio.rmConn.reader.MaxRecordSize == 1048576 && cio.rmConn.writer != nil && cio.rmConn.writer.w == conn && cio.rmConn.writer.maxFragment == 1048576
 //@ ensures [inv] connInv(s) && (s.handler != nil ==> curTuning(s.handler) != nil)
